@@ -15,7 +15,8 @@ included), every `split_every` (`False`, `None` → 8, any int ≥ 2) the lowere
   `mean_eq_pandas` (as the exact pair (Σ, n) that `MeanAggregate` divides), `var_monoid` ((n, Σ, Σ²) is
   a homomorphic image of the column: the exact-algebra content of var/std/sem).
 * `max_noskip_refuted` — `max/min(skipna=False)` is FALSE of the code when a partition is empty
-  (`[[], [1]]` gives NaN, pandas 1).
+  (`[[], [1]]` gives NaN, pandas 1); `max_noskip_partial` holds when no partition is empty (the
+  complement of the finding).
 
 Outside the theorems: float rounding (Chan's merge for var is validated numerically), `min_count`,
 dtypes of results, idxmin/idxmax, nunique, value_counts, mode, nlargest/nsmallest, cov/corr,
@@ -409,6 +410,116 @@ theorem max_noskip_refuted :
   have := h [[], [some 1]] (by decide)
   revert this
   decide
+
+/-- max with an absorbing NaN and an adjoined unit: the monoid behind `max(skipna=False)` on NON-EMPTY blocks -/
+def maxNaMon : Mon (Option Cell) where
+  op a b := match a, b with
+    | none, b => b
+    | a, none => a
+    | some none, _ => some none
+    | _, some none => some none
+    | some (some x), some (some y) => some (some (if x < y then y else x))
+  e := none
+  assoc := by
+    intro a b c
+    rcases a with _ | _ | a <;> rcases b with _ | _ | b <;> rcases c with _ | _ | c <;> simp
+    repeat' split
+    all_goals omega
+  left_id := by intro a; rcases a with _ | _ | a <;> rfl
+  right_id := by intro a; rcases a with _ | _ | a <;> rfl
+
+def muMaxNa (p : List Cell) : Option Cell := if p.isEmpty then none else some (maxK false p)
+
+theorem maxK_false_cons (c : Cell) (p : List Cell) (hp : p ≠ []) :
+    maxK false (c :: p) = match c, maxK false p with
+      | none, _ => none
+      | _, none => none
+      | some x, some y => some (if x < y then y else x) := by
+  cases c with
+  | none => simp [maxK]
+  | some x =>
+    by_cases hn : p.any Option.isNone = true
+    · simp [maxK, hn]
+    · have hvalid : valid p ≠ [] := by
+        cases p with
+        | nil => exact absurd rfl hp
+        | cons d ds =>
+          cases d with
+          | none => simp at hn
+          | some v => simp [valid]
+      simp only [maxK, Bool.not_false, Bool.true_and, List.any_cons, Option.isNone_some, Bool.false_or, hn,
+        Bool.false_eq_true, if_false, valid, List.filterMap_cons, id, List.foldl_cons]
+      have h1 := foldl_maxOpt (List.filterMap id p) (maxOpt none x)
+      rw [h1]
+      cases hm : List.foldl maxOpt none (List.filterMap id p) with
+      | none =>
+        exfalso
+        have : ∀ (l : List Int) (a : Option Int), l ≠ [] → List.foldl maxOpt a l ≠ none := by
+          intro l
+          induction l with
+          | nil => intro a h; exact absurd rfl h
+          | cons y ys ih =>
+            intro a _
+            simp only [List.foldl_cons]
+            by_cases hy : ys = []
+            · subst hy; cases a <;> simp [maxOpt]
+            · exact ih _ hy
+        exact this _ none hvalid hm
+      | some y => simp [maxOpt, maxMon]
+
+theorem muMaxNa_cons (c : Cell) (p : List Cell) : muMaxNa (c :: p) = maxNaMon.op (some c) (muMaxNa p) := by
+  by_cases hp : p = []
+  · subst hp
+    cases c <;> simp [muMaxNa, maxK, maxNaMon, valid, maxOpt]
+  · have hemp : p.isEmpty = false := by cases p <;> simp_all
+    simp only [muMaxNa, List.isEmpty_cons, Bool.false_eq_true, if_false, hemp, maxK_false_cons c p hp]
+    cases c <;> cases maxK false p <;> simp [maxNaMon]
+
+theorem muMaxNa_fold (p : List Cell) : muMaxNa p = maxNaMon.fold (p.map some) := by
+  induction p with
+  | nil => simp [muMaxNa, Mon.fold, maxNaMon]
+  | cons c p ih => rw [muMaxNa_cons, ih]; simp [Mon.fold]
+
+theorem muMaxNa_hom : Hom maxNaMon muMaxNa := by
+  constructor
+  · simp [muMaxNa, maxNaMon]
+  · intro p q
+    rw [muMaxNa_fold (p ++ q), muMaxNa_fold p, muMaxNa_fold q, List.map_append, Mon.fold_append]
+
+/-- partial (complement of the finding): `max(skipna=False)` equals pandas when NO partition is empty -/
+theorem max_noskip_partial (parts : List (List Cell)) (hparts : parts ≠ []) (hne : ∀ p ∈ parts, p ≠ [])
+    (se : Option Nat) (hse : ∀ k, se = some k → 2 ≤ k) :
+    kernelReduce se (maxK false) parts = some (maxK false parts.flatten) := by
+  have hflat : parts.flatten ≠ [] := by
+    cases parts with
+    | nil => exact absurd rfl hparts
+    | cons p ps =>
+      have := hne p (by simp)
+      cases p with
+      | nil => exact absurd rfl this
+      | cons c cs => simp
+  have key := split_every_irrelevant maxNaMon muMaxNa muMaxNa_hom (maxK false) (maxK false) (maxK false)
+    (fun c => some c) (fun m => m.getD none) parts hparts
+    (by
+      intro p hp
+      have := hne p hp
+      have hemp : p.isEmpty = false := by cases p <;> simp_all
+      simp [muMaxNa, hemp])
+    (by
+      intro bs hbs
+      have hemp : bs.isEmpty = false := by cases bs <;> simp_all
+      rw [← muMaxNa_fold]
+      simp [muMaxNa, hemp])
+    (by
+      intro bs hbs
+      have hemp : bs.isEmpty = false := by cases bs <;> simp_all
+      rw [← muMaxNa_fold]
+      simp [muMaxNa, hemp])
+    se hse
+  have hemp : parts.flatten.isEmpty = false := by cases h : parts.flatten <;> simp_all
+  simpa [kernelReduce, muMaxNa, hemp] using key
+
+example : ∀ p ∈ [[some 1, none], [some 3]], p ≠ ([] : List Cell) := by decide
 
 /-- the (n, Σ, Σ²) triple that var/std/sem are a function of is a homomorphic image of the column -/
 def tripleMon : Mon (Nat × Int × Int) where
